@@ -316,14 +316,38 @@ func (c *Ctx) resolutionOracle(s *corpus.Spec, d *Dump, table [][]int, dir strin
 	h.Rule("(wrong q t)", "(sr q t r q2)", "(not (multi q t))", "(reqR r t)", "(not (cellShift q t q2))")
 	h.Rule("(wrong q t)", "(sr q t r q2)", "(not (multi q t))", "(reqN r t)", "(not (cellErr q t))")
 	h.Rule("(wrong q t)", "(sr q t r q2)", "(not (multi q t))", "(noPrec r t)", "(not (cellShift q t q2))")
-	// reduce/reduce where at most one rule has precedence: the earlier rule
-	h.Rule("(wrong q t)", "(rr q t r r2)", "(not (multi q t))", "(not (precRule r))", "(not (cellRed q t r))")
-	h.Rule("(wrong q t)", "(rr q t r r2)", "(not (multi q t))", "(not (precRule r2))", "(not (cellRed q t r))")
+	// reduce/reduce: the earlier rule (precedence is defined between a rule and a token only)
+	h.Rule("(wrong q t)", "(rr q t r r2)", "(not (multi q t))", "(not (cellRed q t r))")
 	h.Rel("twoWay", 2)
 	h.Rule("(twoWay q t)", "(sr q t r q2)", "(not (multi q t))")
 	h.Rule("(twoWay q t)", "(rr q t r r2)", "(not (multi q t))")
+	// cells with three or more candidates: the pairwise rules of the statement define a
+	// tournament; when one candidate beats every other one (a Condorcet winner - then every
+	// order of pairwise resolution, yacc's included, ends with it) the cell must hold it.
+	// Cells without such a candidate stay outside the claim.
+	h.Rel("redBeatsShift", 3)
+	h.Rel("shiftBeatsRed", 3)
+	h.Rule("(redBeatsShift q t r)", "(sr q t r q2)", "(rgt r t)")
+	h.Rule("(redBeatsShift q t r)", "(sr q t r q2)", "(reqL r t)")
+	h.Rule("(shiftBeatsRed q t r)", "(sr q t r q2)", "(rlt2 r t)")
+	h.Rule("(shiftBeatsRed q t r)", "(sr q t r q2)", "(reqR r t)")
+	h.Rule("(shiftBeatsRed q t r)", "(sr q t r q2)", "(noPrec r t)")
+	h.Rel("redBeatsRed", 4)
+	h.Rule("(redBeatsRed q t r r2)", "(rr q t r r2)")
+	h.Rel("redLoses", 3)
+	h.Rule("(redLoses q t r)", "(sr q t r q2)", "(not (redBeatsShift q t r))")
+	h.Rule("(redLoses q t r)", "(rr q t r r2)", "(not (redBeatsRed q t r r2))")
+	h.Rule("(redLoses q t r)", "(rr q t r2 r)")
+	h.Rel("shiftLoses", 2)
+	h.Rule("(shiftLoses q t)", "(sr q t r q2)", "(not (shiftBeatsRed q t r))")
+	h.Rel("multiDecided", 2)
+	h.Rule("(multiDecided q t)", "(multi q t)", "(la q r t)", "(not (redLoses q t r))")
+	h.Rule("(multiDecided q t)", "(multi q t)", "(shiftc q t q2)", "(not (shiftLoses q t))")
+	h.Rule("(wrong q t)", "(multi q t)", "(la q r t)", "(not (redLoses q t r))", "(not (cellRed q t r))")
+	h.Rule("(wrong q t)", "(multi q t)", "(shiftc q t q2)", "(not (shiftLoses q t))", "(not (cellShift q t q2))")
 	h.Query("wrong")
 	h.Query("twoWay")
+	h.Query("multiDecided")
 	res, err := h.Run("/usr/bin/z3", dir, 120*time.Second)
 	if err != nil {
 		c.Inconclusive("%s: %v", s.Name, err)
@@ -331,6 +355,7 @@ func (c *Ctx) resolutionOracle(s *corpus.Spec, d *Dump, table [][]int, dir strin
 	}
 	c.hornStats(h, res, 1)
 	c.addExtraInt("two_way_conflict_cells_decided", len(res.Tuples["twoWay"]))
+	c.addExtraInt("multi_way_conflict_cells_decided", len(res.Tuples["multiDecided"]))
 	if len(res.Tuples["twoWay"]) > 0 {
 		c.MarkDistinct("resolution " + s.Name)
 	}
